@@ -137,6 +137,38 @@ def hist_signature(events, at, clauses):
                               ">".join(steps))
 
 
+def stratified(rng, hists, texts, n):
+    """n of the emitted histories, evenly over their shapes (step kinds,
+    depth of the mutated place, class / instance texts, a text parsed twice,
+    which object is modified) - coverage only, no judgement"""
+    groups = {}
+    for h in hists:
+        seen, key = [], []
+        for kind, a, d, x in h:
+            if kind == "parse":
+                tk = texts[a - 1]["p"]["kind"] if a <= len(texts) else "printed"
+                key.append(("parse", tk, a in seen))
+                seen.append(a)
+            elif kind == "mutate":
+                key.append(("mutate", a, d))
+            else:
+                key.append(("print", a))
+        groups.setdefault(tuple(key), []).append(h)
+    keys = sorted(groups)
+    for k in keys:
+        rng.shuffle(groups[k])
+    out = []
+    while len(out) < n and keys:
+        for k in list(keys):
+            if groups[k]:
+                out.append(groups[k].pop())
+            else:
+                keys.remove(k)
+            if len(out) >= n:
+                break
+    return out
+
+
 def run_histories(ctx, flags, quick):
     """the laws in histories: TLC checks the code-shaped heap, emits the
     histories, the real code replays them, TLC judges the recorded traces"""
@@ -178,9 +210,8 @@ def run_histories(ctx, flags, quick):
             "WbemUriHist", "WbemUriHistSim.cfg", 300, 7,
             label="random histories of length 6")
         sims = [[list(st) for st in h] for h in sims if h]
-    ctx.rng.shuffle(hists)
-    nex = 1000 if quick else len(hists)
-    chosen = hists[:nex] + sims
+    nex = 1200 if quick else len(hists)
+    chosen = stratified(ctx.rng, hists, texts, nex) + sims
     ctx.extra["histories_emitted_by_tlc"] = len(hists)
     ctx.extra["histories_replayed"] = len(chosen)
     ctx.extra["random_long_histories_replayed"] = len(sims)
